@@ -96,7 +96,8 @@ TOLERANCES = {
     'biconj': '|f**(x)-f(x)| <= 512*eps*n*(1+|f|+sum w x^2) + the change '
               'of the reference value under a 32-ulp input perturbation',
     'moreau': 'max|prox_sf(x)+s*prox_{f*/s}(x/s)-x| <= (256*eps + 40*'
-              'resolution(dtype))*(1+max|x|+s*max|p2|) (the library shrinks '
+              'resolution(dtype))*F*max(1,s,1/s)*(1+C+max|x|+s*max|p2|+'
+              'max|p1|), F = product of the scalar factors of the rules (the library shrinks '
               'some thresholds by 10*resolution on purpose)',
     'moreau_non_finite': 'a non-finite proximal value is a violation unless '
                          'the inputs are beyond the safe range of the dtype: '
@@ -856,8 +857,9 @@ def _check_node(B, pts, top, fd, ctx, probe=True, do_sup=True):
                         kind, a.tolist(), b.tolist(), sigma, xf.tolist()))
             r = a + sigma * b - xf
             res = np.finfo(np.float32 if f32 else np.float64).resolution
-            t = (256 * eps + 40 * res) * (
-                1.0 + float(np.max(np.abs(xf))) +
+            t = (256 * eps + 40 * res) * _scal_factor(ref) * max(
+                1.0, sigma, 1.0 / sigma) * (
+                1.0 + rscale + float(np.max(np.abs(xf))) +
                 sigma * float(np.max(np.abs(b))) +
                 float(np.max(np.abs(a))))
             hit('moreau')
@@ -1037,6 +1039,21 @@ def _param_snapshot(B, f, Xs, Ys, sigma, sig, hit, note, f_eval, probe,
             'functional is neither a snapshot nor consistently by-reference:'
             ' {}'.format(which, ', '.join(
                 '{}: {}'.format(k, kinds[k]) for k in sorted(kinds))))
+
+
+def _scal_factor(ref):
+    """Product of the scalar factors of the derivation rules (thresholds
+    that the library shrinks by 10*resolution are scaled by them)."""
+    if ref is None:
+        return 1.0
+    fac = 1.0
+    if isinstance(ref, (R.LeftScal, R.RightScal)):
+        fac = max(1.0, abs(ref.s), 1.0 / abs(ref.s))
+    if isinstance(ref, R.RightVec):
+        fac = max(1.0, float(np.max(np.abs(ref.v))),
+                  float(np.max(1.0 / np.abs(ref.v))))
+    sub = [_scal_factor(ch) for ch in ref.children()]
+    return fac * (max(sub) if sub else 1.0)
 
 
 def _ref_scale(ref):
